@@ -386,6 +386,27 @@ def lsImport (st : LS) (pkg : Str) : M LS :=
           .ok sc2) sch0
       pure { st with schema := sch, privateSchema := true }
 
+/-- `ExtendedConfigLoader.addOption(spec)` -/
+def addOption (spec : Str) : M OptItem :=
+  let bad (tag : String) : Fail := .cfg { kind := .syntax, line := some (-1), url := some "<command-line option>".toList, tag := tag }
+  if !spec.contains '=' then .error (bad "invalid configuration specifier")
+  else
+    let opt := spec.takeWhile (· != '=')
+    let val := (spec.dropWhile (· != '=')).drop 1
+    let path := splitOn opt '/'
+    if path.contains [] then .error (bad "'//' is not allowed in an option path")
+    else .ok { path := path, val := val }
+where
+  /-- `s.split(c)` -/
+  splitOn (s : Str) (c : Char) : List Str :=
+    match s with
+    | [] => [[]]
+    | x :: t =>
+      if x == c then [] :: splitOn t c
+      else match splitOn t c with
+        | w :: ws => (x :: w) :: ws
+        | [] => [[x]]
+
 def loaderCtx : PCtx LS :=
   { start := lsStart, stop := lsStop, value := lsValue, imp := lsImport, canInclude := true, canDefine := true }
 
@@ -396,11 +417,13 @@ structure LoadResult where
 
 /-- `ConfigLoader.loadResource` / `ExtendedConfigLoader` with `overrides` already split by `addOption` -/
 def load (conv : Conv) (env : Env) (pkgs : Str → Pkg) (schema : Schema) (url : Option Str)
-    (lines : List Str) (overrides : List OptItem) : M LoadResult := do
+    (lines : List Str) (specs : List Str) : M LoadResult := do
+  let overrides ← specs.mapM addOption
   let bag ← if overrides.isEmpty then pure Option.none else (mkBag conv schema.top overrides).map some
   let st0 : LS := { schema := schema, privateSchema := false, handlers := [], stack := [newMatcher schema.top Option.none bag],
                     pkgs := pkgs, conv := conv }
-  let ps ← parseLines 64 env loaderCtx url lines 0 { ctx := st0, stack := [], defs := [] }
+  let active := match url with | some u => if u == [] then [] else [u] | none => []
+  let ps ← parseLines 64 env loaderCtx active url lines 0 { ctx := st0, stack := [], defs := [] }
   match ps.ctx.stack with
   | [top] =>
     let (v, hs) ← finishMatcher conv ps.ctx.schema top
